@@ -123,17 +123,51 @@ func genEntry(t *rapid.T, idx int) Entry {
 	}
 	b, _ := json.Marshal(p)
 	e.Payload = string(b)
-	// metadata: lower-case keys outside the reserved grpc- prefix, printable ASCII values
+	// metadata: keys outside the reserved grpc- prefix, printable ASCII values. gRPC metadata keys are
+	// case-insensitive (lower-case on the wire), and users write them the HTTP way: one key in three is written
+	// Capitalised-Per-Word, UPPER-CASE or in mixed case - the entry marker too. No two keys of an entry differ in
+	// case only (which of the two values would be sent is not defined).
 	n := rapid.IntRange(0, 3).Draw(t, "mdN")
-	e.Metadata = map[string]string{"x-entry": strconv.Itoa(idx)}
+	e.Metadata = map[string]string{genKeyCase(t, "x-entry"): strconv.Itoa(idx)}
+	lower := map[string]bool{"x-entry": true}
 	for i := 0; i < n; i++ {
 		k := rapid.SampledFrom([]string{"authorization", "x-request-id", "x-b3-traceid", "user-agent-x", "k1", "k2"}).Draw(t, "mdK")
-		e.Metadata[k] = rapid.StringMatching(`[a-zA-Z0-9 =;,._-]{0,16}`).Draw(t, "mdV")
+		v := rapid.StringMatching(`[a-zA-Z0-9 =;,._-]{0,16}`).Draw(t, "mdV")
+		if lower[k] {
+			continue
+		}
+		lower[k] = true
+		e.Metadata[genKeyCase(t, k)] = v
 	}
 	if e.Invalid == "" && rapid.IntRange(0, 11).Draw(t, "stall") == 0 {
 		e.Stall = true
 	}
 	return e
+}
+
+// genKeyCase writes a lower-case metadata key the way it is written in two entries out of three, or with capitals.
+func genKeyCase(t *rapid.T, k string) string {
+	switch rapid.IntRange(0, 8).Draw(t, "keyCase") {
+	case 0: // Authorization, X-Request-Id
+		parts := strings.Split(k, "-")
+		for i, p := range parts {
+			if p != "" {
+				parts[i] = strings.ToUpper(p[:1]) + p[1:]
+			}
+		}
+		return strings.Join(parts, "-")
+	case 1:
+		return strings.ToUpper(k)
+	case 2: // any letters
+		b := []byte(k)
+		for i := range b {
+			if b[i] >= 'a' && b[i] <= 'z' && rapid.Bool().Draw(t, "upper") {
+				b[i] -= 'a' - 'A'
+			}
+		}
+		return string(b)
+	}
+	return k
 }
 
 func genCase(t *rapid.T) Case {
@@ -153,8 +187,10 @@ func genCase(t *rapid.T) Case {
 			md := map[string]string{}
 			for k, v := range e.Metadata {
 				md[k] = v
+				if strings.EqualFold(k, "x-entry") {
+					md[k] = strconv.Itoa(i)
+				}
 			}
-			md["x-entry"] = strconv.Itoa(i)
 			e.Metadata = md
 			c.Entries = append(c.Entries, e)
 		}
@@ -357,12 +393,20 @@ func check(c Case, o *vf.Obs) error {
 		return nil
 	}
 	o.ClassIf(timedOutUnseen > 0, "some_calls_timed_out_on_the_client")
-	mdExtra := false
+	mdExtra, upperKey, upperMarker := false, false, false
 	for _, e := range c.Entries {
 		if len(e.Metadata) > 1 {
 			mdExtra = true
 		}
+		for k := range e.Metadata {
+			if e.Invalid == "" && k != strings.ToLower(k) {
+				upperKey = true
+				upperMarker = upperMarker || strings.EqualFold(k, "x-entry")
+			}
+		}
 	}
+	o.ClassIf(upperKey, "metadata_key_with_capitals")
+	o.ClassIf(upperMarker, "metadata_marker_key_with_capitals")
 	o.ClassIf(mdExtra, "metadata")
 	o.ClassIf(c.Long, "file_longer_than_read_ahead")
 	o.ClassIf(invalids > 0 && invalids < len(c.Entries), "invalid_mixed_with_valid")
